@@ -319,11 +319,11 @@ func conversations(r *mon.Rec) {
 		if pan {
 			r.Violate("C03:panic:"+mon.LibFrame(st), fmt.Sprintf("ConversationToNetconfv4 over %d messages panicked: %v", len(cur), val), rp)
 		}
-		if len(cur) == 3 {
+		if len(cur) == 4 {
 			return
 		}
-		for i := 0; i < n4 && i < 4; i++ {
-			seq4(append(cur, recent4[i]))
+		for i := 0; i < n4 && i < 3; i++ {
+			seq4(append(cur[:len(cur):len(cur)], recent4[i]))
 		}
 	}
 	seq4(nil)
@@ -335,11 +335,11 @@ func conversations(r *mon.Rec) {
 		if pan {
 			r.Violate("C03:panic:"+mon.LibFrame(st), fmt.Sprintf("ConversationToNetconf over message types [%s] panicked: %v", desc, val), rp)
 		}
-		if len(cur) == 3 {
+		if len(cur) == 4 {
 			return
 		}
-		for i := 0; i < n6 && i < 4; i++ {
-			seq6(append(cur, recent6[i]), desc+fmt.Sprint(recent6[i].Type())+",")
+		for i := 0; i < n6 && i < 3; i++ {
+			seq6(append(cur[:len(cur):len(cur)], recent6[i]), desc+fmt.Sprint(recent6[i].Type())+",")
 		}
 	}
 	seq6(nil, "")
